@@ -24,6 +24,7 @@ fn exec(prop: &str, plan: &Rc<Plan>) -> Result<Executed, String> {
     match check::world_of(prop) {
         'A' => check::execute_a(prop, plan),
         'C' => check::execute_c(prop, plan),
+        'B' => check::execute_b(prop, plan),
         w => Err(format!("harness: world {w} not available in this worker for {prop}")),
     }
 }
@@ -76,6 +77,9 @@ fn plan_for(c: &Common, index: u64) -> (u64, Plan) {
     if check::world_of(&c.prop) == 'C' {
         check::decorate_for_world_c(&c.prop, &mut plan);
     }
+    if check::world_of(&c.prop) == 'B' {
+        check::decorate_for_world_b(&c.prop, &mut plan);
+    }
     (run_seed, plan)
 }
 
@@ -101,6 +105,9 @@ fn run(args: &[String]) -> Result<u8, String> {
         }
         if let Some(ch) = &e.chistory {
             stats.absorb_c(&plan, ch);
+        }
+        if let Some(bh) = &e.bhistory {
+            stats.absorb_b(&plan, bh);
         }
         for v in &e.violations {
             stats.violations += 1;
@@ -183,6 +190,15 @@ fn show(args: &[String]) -> Result<u8, String> {
             println!("CB {:?} {} #{} w={:?} [{}..{:?}] {:?} {:?}", cb.kind, cb.site, cb.ordinal, cb.world, cb.enter, cb.exit, cb.token, cb.finished_arg);
         }
         println!("end={:?} stats={:?}", h.end, h.stats);
+    }
+    if let Some(b) = &e.bhistory {
+        for ev in &b.raw {
+            println!("{}", ev.short());
+        }
+        println!("stack {} end {:?} panic {:?} probe {:?}", b.stack, b.end, b.panic_msg, b.probe);
+        for (k, v) in &b.outputs {
+            println!("--- sink {k} ---\n{v}");
+        }
     }
     if let Some(c) = &e.chistory {
         println!("stack {} shape {:?}", c.stack, c.shape);
